@@ -98,7 +98,8 @@ Record case := mk_case {
   c_parse : list ((bytes * bytes) * option bytes);   (* the real Parse on every (parameter, raw) pair of the case *)
   c_ups : list (upd bytes bytes);                    (* UpdateFrom / UpdateFromConfigUpdate calls in order *)
   c_watch : list bytes;                 (* field names whose values were observed *)
-  c_obs : list obs                      (* distinct observations over repeated runs (one if deterministic) *)
+  c_obs : list obs;                     (* distinct observations over repeated runs (one if deterministic) *)
+  c_envs : list (list bytes * list (bytes * bytes))   (* LoadConfigFromEnvironment: environ, the returned map sorted *)
 }.
 
 Fixpoint list_eqb {A} (eqb : A -> A -> bool) (a b : list A) : bool :=
@@ -233,5 +234,21 @@ Section Run.
   Definition ok_case : bool :=
     Nat.eqb (length (c_obs c)) 1 && forallb ok_obs (c_obs c).
 
-  Definition check_case : bool * bool := (model_agrees, ok_case).
+  (* LoadConfigFromEnvironment: every returned name is lower-case and comes from a FELIX_ variable with that value; every
+     FELIX_ variable is represented *)
+  Definition ok_env (environ : list bytes) (m : list (bytes * bytes)) : bool :=
+    forallb (fun kv => beqb (lower_b (fst kv)) (fst kv)
+                       && existsb (fun e => match env_entry e with
+                                            | Some (k, v) => beqb k (fst kv) && beqb v (snd kv)
+                                            | None => false
+                                            end) environ) m
+    && forallb (fun e => match env_entry e with
+                         | Some (k, _) => existsb (fun kv => beqb (fst kv) k) m
+                         | None => true
+                         end) environ.
+  Definition env_agrees : bool :=
+    forallb (fun em => list_eqb pair_eqb (sort_kvs bleb (load_env (fst em))) (snd em)) (c_envs c).
+
+  Definition check_case : bool * bool :=
+    (model_agrees && env_agrees, ok_case && forallb (fun em => ok_env (fst em) (snd em)) (c_envs c)).
 End Run.
